@@ -230,3 +230,17 @@ Theorem C20_symmetrical_is_source : forall m : smatrix,
   = match symmetrical m with Ok r => GoSem.Ret r | _ => GoSem.Panics end.
 Proof. exact ImpProofsO.imp_Symmetrical. Qed.
 Print Assumptions C20_symmetrical_is_source.
+
+(* ---- the property itself, about the translated source ----------------------------------------------------
+   Any layout L of a rectangular table T (lines shorter than bufio.Scanner's 64 KiB limit), cut into
+   lines as bufio.Scanner does (Base.scan_tokens), is read by ReadNCBI as translated from smtext.go
+   into exactly the matrix of T, with a nil error. *)
+From Bio.Proofs Require ImpProofsW.
+Theorem C20_read_ncbi_exact_is_source : forall o T L fuel cur,
+  rect T -> TableLayout o T L ->
+  Forall (fun p => Bio.Model.Smtext.too_long p = false) (lines_tail (split_on LF L)) ->
+  (length (scan_tokens L) < fuel)%nat ->
+  exists rd, ImpGen.imp_smtext_ReadNCBI fuel o (GoSem.Scanner cur (scan_tokens L) 0%Z false)
+             = GoSem.Ret (rd, (matrix_of T, 0%Z)).
+Proof. exact ImpProofsW.read_ncbi_exact_src. Qed.
+Print Assumptions C20_read_ncbi_exact_is_source.
